@@ -292,4 +292,115 @@ func init() {
 		}
 		return s.viol
 	}})
+	// V1: a primary that is brought into its view by a recovery message waits the backups'
+	// timeout instead of proposing at once; everybody times out together, a view is wasted.
+	regScript(&Script{Name: "V1_view_wasted_primary_enters_view_by_recovery", Prop: "C09", Class: "view_wasted_primary_entered_view_by_recovery", Run: func() *Violation {
+		sc := scriptScenario(7, -1)
+		sc.Family = "gst"
+		sc.Start = 2 // height 3: validator 3 (silent) is the primary of view 0, validator 2 of view 1, validator 1 of view 2
+		sc.Fault[3] = FSilent
+		sc.Sub = 0
+		sc.GST = 0
+		sc.Delta = int64(time.Millisecond)
+		sc.Heights = 3
+		sc.MaxTime = 400 * int64(sc.TPB)
+		sc.MaxEvents = 1000000
+		sc.SyncEvery = int64(sc.TPB)
+		s := newManualSim(sc)
+		s.AddOracle(NewOracleC09(s))
+		timeout := func(n *Node) {
+			s.now += int64(time.Millisecond)
+			h, v := n.d.BlockIndex, n.d.ViewNumber
+			n.call(&Step{Op: OpTimeout, TH: h, TV: v}, func() { n.d.OnTimeout(h, v) })
+		}
+		var all []*Node
+		for _, id := range []int{0, 1, 2, 4, 5, 6} {
+			all = append(all, s.nodeOf(id))
+		}
+		n2, n4 := s.nodeOf(2), s.nodeOf(4)
+		// nobody has heard anybody: the first timeouts produce recovery requests
+		for _, n := range all {
+			timeout(n)
+		}
+		for _, n := range all {
+			if rr := s.sent(n, dbft.RecoveryRequestType); rr != nil {
+				for _, m := range all {
+					if m != n {
+						s.give(m, rr)
+					}
+				}
+			}
+		}
+		// second timeouts: change-view requests for view 1
+		cvs := map[*Node]*Payload{}
+		for _, n := range all {
+			timeout(n)
+			cvs[n] = s.sent(n, dbft.ChangeViewType)
+			if cvs[n] == nil {
+				return nil
+			}
+		}
+		// everybody but validator 2 gets the requests directly and enters view 1
+		for _, n := range all {
+			if n == n2 {
+				continue
+			}
+			for _, m := range all {
+				if m != n {
+					s.give(n, cvs[m])
+				}
+			}
+			if n.d.ViewNumber != 1 {
+				return nil
+			}
+		}
+		// late duplicates of the requests make the five answer with recovery messages, through
+		// which they hear from each other in view 1 (so that their next timeout really asks for
+		// view 2 instead of only requesting recovery)
+		for _, n := range all {
+			if n == n2 {
+				continue
+			}
+			for _, m := range all {
+				if m != n && m != n2 {
+					s.give(n, cvs[m])
+				}
+			}
+		}
+		for _, n := range all {
+			if n == n2 {
+				continue
+			}
+			if r := s.sent(n, dbft.RecoveryMessageType); r != nil {
+				for _, m := range all {
+					if m != n && m != n2 {
+						s.give(m, r)
+					}
+				}
+			}
+		}
+		// validator 2 (the primary of view 1) learns the requests from validator 4's recovery
+		// message, sent in reply to its repeated change-view request
+		s.give(n4, cvs[n2])
+		rm := s.sent(n4, dbft.RecoveryMessageType)
+		if rm == nil || n2.d.ViewNumber != 0 {
+			return nil
+		}
+		s.give(n2, rm)
+		if n2.d.ViewNumber != 1 {
+			return nil
+		}
+		// from here on the network is synchronous and fault-free
+		s.manual = false
+		for i := range s.nodes {
+			s.after(sc.SyncEvery+int64(i), &Event{Kind: EvSyncPoll, Node: i})
+		}
+		s.loop()
+		for _, o := range s.oracles {
+			if s.viol == nil {
+				o.AtEnd(s)
+			}
+		}
+		return s.viol
+	}})
 }
